@@ -22,6 +22,16 @@
      fn 10   terpene_analysis.filter_incomplete (gather_by_query sets sorted by the total key of refine_hmmscan_results)
      fn 11   terpene_analysis.analyse_cluster end to end on the shipped profile properties (only run_terpene_hmmscan,
              an external binary, is replaced): prediction JSON as written and in canonical forms
+     fn 12   detect_protoclusters_and_signatures on CIRCULAR records with several origin-crossing genes (nested, overlapping,
+             multi-exon, both strands) satisfying the same rule, SUPERIORS rules, extenders, short cutoffs; order = the sets
+             of gene names apply_cluster_rules builds (string hashes); model = C03's pipeline with the enumeration of
+             find_protoclusters' set made explicit (Model.v module DO, run function 16); the same child run continues
+             end to end (numbering, candidates, regions, detection JSON, areas JSON, GenBank text)
+     fn 13   Record.create_candidate_clusters + create_regions on circular records with an origin-crossing first section, an
+             unconnected region elsewhere, later pre-origin sections merged into the first, and areas with IDENTICAL
+             coordinates (twin subregions, twin protoclusters = twin candidates); every child builds the record under
+             several allocation layouts and with forced hashes (ascending / descending / scrambled) of the subregions
+             and protoclusters: region children order, GenBank qualifiers and areas JSON must all be identical
 
    Checks: (a) per case, the outputs of all children are identical (the property itself; a difference is a
    counterexample with the input and the two seeds, unless the input lies in a recorded finding class);
@@ -48,7 +58,10 @@ FN_NAME = {1: "refine_hmmscan_results(neighbour_mode=True)", 2: "refine_hmmscan_
            4: "create_candidates_from_protoclusters", 5: "Region.get_unique_protoclusters",
            6: "sorted set of str (CDSResults.to_json / enabled_types)", 7: "Feature.to_biopython (notes, qualifier keys)",
            8: "CDSResults.annotate (CORE gene functions)", 9: "cluster_prediction.filter_results (identity-hashed hits)",
-           10: "terpene filter_incomplete", 11: "terpene analyse_cluster (prediction JSON)"}
+           10: "terpene filter_incomplete", 11: "terpene analyse_cluster (prediction JSON)",
+           12: "detect_protoclusters_and_signatures (circular, origin-crossing genes) + end-to-end dumps",
+           13: "Record.create_regions (circular, origin-crossing first section, twin areas)"}
+FN_NAME[16] = FN_NAME[12]
 
 # texts of the finding classes of this check.  All ten are REPAIRED in the code (known_findings.json: status fixed), so none
 # is tolerated: a difference between children inside a class is reported as a counterexample "(class X, not recorded as
@@ -93,6 +106,11 @@ KNOWN_TEXT = {
         "terpene data_loader.Reaction.build_intersection returns tuple(set & set) over CompoundGroup objects (hashed by name): "
         "substrates and products of merged reactions, and with them the products list of the cluster prediction, come out "
         "in PYTHONHASHSEED order",
+    "crossing_anchor_key_tie_set_order":
+        "find_protoclusters sorts the genes of a rule (a set of gene names) with Feature.__lt__, whose key (start, length) "
+        "does not separate two origin-crossing genes with the same start and length but different exons (so different ends): "
+        "they become the first cores in set-iteration (PYTHONHASHSEED) order, the next gene is only compared with the newest "
+        "core, and with a superior rule the surviving protocluster differs between runs",
 }
 # where a difference between children may show for each class (dump names of the end-to-end stage)
 E2E_CLASS_DUMPS = {"annotate_definition_domains_set_order": {"gene_functions", "genbank", "js_regions",
@@ -345,8 +363,143 @@ def gen_terpene_e2e(rng):
     return {"hits": hits}
 
 
+GENE_NAMES = ["xa", "xb", "c1", "cn", "orf1", "orf10", "orf2", "A", "B", "a", "b", "ctg1_1", "ctg1_2", "ctg1_10", "geneA", "geneB",
+              "pksA", "nrpS", "z", "Z9", "SCO1", "SCO2", "SCO10", "lt_0001", "lt_0002", "lt_0010"]
+
+
+def gen_crossing(rng):
+    """ circular record; 2-3 genes over the origin (nested / overlapping / multi-exon / either strand, sometimes tied on
+        the key of Feature.__lt__) that mostly satisfy the same rule; genes after the origin at distances around the
+        cutoff from every reach, genes before the origin likewise, a far gene; an inferior rule with SUPERIORS, extenders
+        -> rules [(cutoff_kb, nb_kb, condition, extender or None, [superiors])], genes [(name, parts)], hits {name: [profiles]} """
+    length = rng.choice([30000, 40000, 60000, 100000])
+    cut_kb = rng.choice([1, 1, 2])
+    cut = cut_kb * 1000
+    sup_cond = rng.choice(["p1", "p1", "p1 or p3"])
+    inf_cond = rng.choice(["p0", "p0", "p0", "p0 or p2"])
+    rules = [(rng.choice([1, 2]), rng.choice([0, 1]), sup_cond, None, []),
+             (cut_kb, rng.choice([0, 1, 1, 3]), inf_cond, rng.choice([None, None, None, "p2", "p3"]),
+              [0] if rng.random() < 0.8 else [])]
+    if rng.random() < 0.3:
+        rules.append((rng.choice([1, 2, 5]), rng.choice([0, 1]), rng.choice(["p0", "p2", "p0 or p1"]), None,
+                      rng.choice([[], [0], [1]])))
+    genes, seen = [], set()
+
+    def add(kind, parts):
+        key = tuple(sorted((s, e) for s, e, _ in parts))
+        if key in seen or any(not 0 <= s < e <= length for s, e, _ in parts):
+            return
+        seen.add(key)
+        genes.append((kind, parts))
+
+    def crossing_parts(start, reach, strand, split):
+        parts = [(start, length, strand), (0, reach, strand)]
+        if split:
+            head = length - start
+            x = rng.randint(1, max(1, head // 3))
+            y = rng.randint(1, max(1, head // 3))
+            if x + y < head:
+                parts = [(start, start + x, strand), (length - y, length, strand), (0, reach, strand)]
+        return parts[::-1] if strand == -1 else parts
+    backs = rng.sample([300, 600, 999, 1500, 3000], 3)
+    reaches = rng.sample([200, 700, 1000, 3000, 3800], 3)
+    n_cross = rng.choice([2, 2, 2, 3])
+    tie = rng.random() < 0.2
+    for i in range(n_cross):
+        strand = rng.choice([1, 1, -1])
+        if tie and i == 1:
+            # same start and length as the first one, a further reach: two exons before the origin
+            start0, reach0 = length - backs[0], reaches[0]
+            reach = reach0 + rng.choice([300, 800, 1500])
+            head = (length - start0) - (reach - reach0)
+            if head >= 2 and (length - start0) - head >= 1:
+                x = rng.randint(1, head - 1)
+                parts = [(start0, start0 + x, strand), (length - (head - x), length, strand), (0, reach, strand)]
+                add("x", parts[::-1] if strand == -1 else parts)
+                reaches[1] = reach
+                continue
+        add("x", crossing_parts(length - backs[i], reaches[i], strand, rng.random() < 0.25))
+    near = [cut - 300, cut - 1, cut, cut + 1, cut + 400]
+    for reach in rng.sample(reaches[:n_cross], rng.choice([1, 2, min(3, n_cross)])):
+        start = reach + rng.choice(near)
+        add("c", [(start, start + rng.choice([100, 300, 600]), rng.choice([1, -1]))])
+    for back in rng.sample(backs[:n_cross], rng.choice([0, 1, 1, 2])):
+        end = length - back - rng.choice(near)
+        add("b", [(end - rng.choice([100, 300]), end, rng.choice([1, -1]))])
+    for _ in range(rng.choice([0, 1, 1, 2])):
+        start = length // 2 + rng.choice([0, 500, 1200, 2500])
+        add("f", [(start, start + 300, 1)])
+    names = rng.sample(GENE_NAMES, len(genes))
+    hits = {}
+    for name, (kind, _parts) in zip(names, genes):
+        probs = {"x": (0.85, 0.1, 0.05, 0.05), "c": (0.8, 0.55, 0.2, 0.1), "b": (0.8, 0.4, 0.2, 0.1),
+                 "f": (0.7, 0.3, 0.1, 0.1)}[kind]
+        profs = [f"p{i}" for i, prob in enumerate(probs) if rng.random() < prob]
+        if profs:
+            hits[name] = profs
+    return {"length": length, "rules": rules, "genes": [(name, parts) for name, (_k, parts) in zip(names, genes)],
+            "hits": hits}
+
+
+def gen_regions(rng):
+    """ circular record: a protocluster (or subregion) over the origin, mostly an unconnected area in the middle of the
+        ring, areas shortly before the origin that overlap the first one (left in a section of their own by the linear scan
+        whenever another region lies between), twins: subregions with identical coordinates (anywhere), protoclusters with
+        identical extents (their SINGLE candidates and the candidate holding both share the coordinates)
+        -> protoclusters [(start, end, core_start, core_end, product)], subregions [(start, end, tool, label)] in the
+           order they are added to the record """
+    length = rng.choice([50000, 100000])
+    back = rng.choice([1000, 3000])
+    reach = rng.choice([1000, 3000])
+    protos, subs = [], []
+    first = rng.random()
+    if first < 0.7:
+        protos.append((length - back, reach, length - back // 2, reach // 2, "T1PKS"))
+        if rng.random() < 0.3:
+            # a twin over the origin: same extent, other product and core
+            protos.append((length - back, reach, length - back // 4, reach // 4, "NRPS"))
+    else:
+        subs.append((length - back, reach, "toolX", "over"))
+        if rng.random() < 0.4:
+            subs.append((length - back, reach, "toolY", "over2"))
+    if rng.random() < 0.8:
+        mid = length // 2
+        if rng.random() < 0.6:
+            protos.append((mid - 5000, mid + 5000, mid, mid + 900, "terpene"))
+            if rng.random() < 0.3:
+                protos.append((mid - 5000, mid + 5000, mid + 1000, mid + 1900, "RiPP"))
+        else:
+            subs.append((mid - 3000, mid + 3000, "toolA", "mid"))
+        if rng.random() < 0.3:
+            subs.append((mid - 3000, mid + 3000, "toolB", "mid2"))
+            if rng.random() < 0.5:
+                subs.append((mid - 3000, mid + 3000, "toolA", "mid3"))
+    # shortly before the origin, overlapping the first area
+    pre_start = length - back - rng.choice([500, 2000])
+    pre_end = length - back + rng.choice([200, back // 2])
+    n_pre = rng.choice([0, 1, 2, 2, 2, 3])
+    tools = rng.sample(["toolA", "toolB", "toolC", "sideload", "cassis"], 3)
+    for i in range(n_pre):
+        if i and rng.random() < 0.3:
+            subs.append((pre_start + 100 * i, pre_end, tools[i], f"island{i}"))
+        else:
+            subs.append((pre_start, pre_end, tools[i], f"island{i}"))
+    if rng.random() < 0.3:
+        # a protocluster before the origin overlapping the first area (and twins of it)
+        protos.append((pre_start, pre_end, pre_start + 100, pre_start + 400, "lanthipeptide"))
+        if rng.random() < 0.5:
+            protos.append((pre_start, pre_end, pre_start + 150, pre_start + 300, "sactipeptide"))
+    if rng.random() < 0.25:
+        post = reach - rng.choice([100, 500])
+        subs.append((post, post + 2000, "toolA", "post"))
+        if rng.random() < 0.5:
+            subs.append((post, post + 2000, "toolB", "post2"))
+    rng.shuffle(subs)
+    return {"length": length, "protos": protos, "subs": subs}
+
+
 GENERATORS = {1: gen_refine, 2: gen_refine, 3: gen_pipeline, 4: gen_formation, 5: gen_unique, 6: gen_strings, 7: gen_notes,
-              8: gen_annotate, 9: gen_filter, 10: gen_terpene, 11: gen_terpene_e2e}
+              8: gen_annotate, 9: gen_filter, 10: gen_terpene, 11: gen_terpene_e2e, 12: gen_crossing, 13: gen_regions}
 
 
 # ====================================================================== child: the real code
@@ -872,8 +1025,214 @@ def child_notes(_fn, args, rng, _keep):
             ([PROP, 7] + enc_strs(given_keys), enc_strs(out_keys))], {}
 
 
+def child_crossing(_fn, args, _rng, _keep):
+    """ fn 12: the whole rule-based detection on a circular record; the enumeration of every set of gene names that
+        find_protoclusters iterates is observed through apply_cluster_rules (same process, same insertion history = same
+        order); flat = run function 16 of the model (C03's pipeline at that enumeration) """
+    import io
+    import c03
+    import detect_util
+    from Bio import SeqIO
+    from antismash.common import serialiser
+    from antismash.common import json as asjson
+    from antismash.common.hmm_rule_parser import cluster_prediction
+    length, hits = args["length"], args["hits"]
+    rules = [(c, nb, cond, ext, list(sups)) for c, nb, cond, ext, sups in args["rules"]]
+    genes = [(name, [tuple(part) for part in parts]) for name, parts in args["genes"]]
+    text = c03.rules_text(rules)
+    profiles = [f"p{x}" for x in range(c03.NPROF)]
+    try:
+        record = detect_util.make_record(length, True, genes)
+        record.id = "rec"
+        record.name = "rec"
+        record.record_index = 1
+        ruleset = detect_util.make_ruleset(text, profiles, {name: set(profs) for name, profs in hits.items()})
+    except Exception as exc:  # pylint: disable=broad-except
+        return [], {"construction_failed": type(exc).__name__}
+    index = {name: i for i, (name, _) in enumerate(genes)}
+    ordered = [(index[cds.get_name()], c03.loc_triples(cds.location)) for cds in record.get_cds_features()]
+    dyn = cluster_prediction.find_dynamic_hits(record, list(ruleset.dynamic_profiles.values()), {})
+    payload = [length, 1, len(ordered)]
+    for gid, parts in ordered:
+        payload += [gid] + c03.enc_loc_parts(parts)
+    payload.append(len(dyn))
+    for name, dhits in dyn.items():
+        payload += [index[name], len(dhits)]
+        for hit in dhits:
+            payload += [int(hit.query_id[1:]), int(2 * hit.bitscore)]
+    payload.append(len(ruleset.rules))
+    for rule in ruleset.rules:
+        payload += [rule.cutoff, rule.neighbourhood] + c03.enc_cond(rule.conditions)
+        payload += ([1] + c03.enc_cond(rule.extenders)) if rule.extenders else [0]
+        payload += [len(rule.superiors)] + [int(sup[1:]) for sup in rule.superiors]
+    dumps = {}
+    observed = []
+    tie = False
+    try:
+        _domains, type_hits = cluster_prediction.apply_cluster_rules(record, {name: list(found) for name, found in dyn.items()},
+                                                                    ruleset.rules)
+        rule_names = [rule.name for rule in ruleset.rules]
+        for name, members in type_hits.items():
+            listed = list(members)
+            observed.append((rule_names.index(name), [index[gene] for gene in listed]))
+            feats = [record.get_cds_by_name(gene) for gene in listed]
+            for i, one in enumerate(feats):
+                for other in feats[:i]:
+                    if not one < other and not other < one \
+                            and sorted(detect_util.loc_parts(one.location)) != sorted(detect_util.loc_parts(other.location)):
+                        # same (start, length) key, other exons: the class crossing_anchor_key_tie_set_order when the
+                        # two cross the origin (ties between other genes are harmless: proved for single parts, and such
+                        # genes end up in the same core)
+                        if one.location.crosses_origin() and other.location.crosses_origin():
+                            tie = True
+    except Exception as exc:  # pylint: disable=broad-except
+        dumps["observation_error"] = type(exc).__name__ + ": " + str(exc)[:200]
+    dumps["_class_crossing_key_tie"] = tie
+    flat = [PROP, 16, len(observed)]
+    for rule_index, ids in observed:
+        flat += [rule_index, len(ids)] + ids
+    flat += payload
+    pairs = []
+    try:
+        result = detect_util.detect(record, ruleset)
+        protos = []
+        for proto in result.protoclusters:
+            protos.append([int(proto.product[1:])] + c03.enc_loc_parts(c03.loc_triples(proto.core_location))
+                          + c03.enc_loc_parts(c03.loc_triples(proto.location)))
+        protos.sort()
+        pairs.append((flat, [0, len(protos)] + [x for p in protos for x in p]))
+    except Exception as exc:  # pylint: disable=broad-except
+        pairs.append((flat, [1, err_code(exc)]))
+        dumps["error"] = type(exc).__name__ + ": " + str(exc)[:200]
+        return pairs, dumps
+    try:
+        dumps["returned"] = [(p.product, loc_text(p.core_location), loc_text(p.location)) for p in result.protoclusters]
+        dumps["hmm_json"] = asjson.dumps(result.to_json())
+        for proto in result.protoclusters:
+            record.add_protocluster(proto)
+        dumps["protoclusters"] = [(record.get_protocluster_number(p), p.product, loc_text(p.location), loc_text(p.core_location))
+                                  for p in record.get_protoclusters()]
+        record.create_candidate_clusters()
+        record.create_regions()
+        dumps["candidates"] = [(record.get_candidate_cluster_number(c), str(c.kind),
+                                [(record.get_protocluster_number(p), p.product) for p in c.protoclusters],
+                                loc_text(c.location)) for c in record.get_candidate_clusters()]
+        dumps["regions"] = [(r.get_region_number(), r.products, loc_text(r.location),
+                             [record.get_candidate_cluster_number(c) for c in r.candidate_clusters])
+                            for r in record.get_regions()]
+        dumps["areas_json"] = asjson.dumps(serialiser.gather_record_areas(record))
+        buf = io.StringIO()
+        SeqIO.write([record.to_biopython()], buf, "genbank")
+        dumps["genbank"] = buf.getvalue()
+    except Exception as exc:  # pylint: disable=broad-except
+        dumps["error"] = type(exc).__name__ + ": " + str(exc)[:200]
+    return pairs, dumps
+
+
+def child_regions(_fn, args, rng, keep):
+    """ fn 13: candidate clusters and regions of a circular record, built under several allocation layouts and with forced
+        hashes of the subregions / protoclusters (a set of areas iterated anywhere then comes out in another order) """
+    import io
+    from Bio import SeqIO
+    from antismash.common import serialiser
+    from antismash.common import json as asjson
+    from antismash.common.secmet.features import Protocluster, SubRegion
+    from antismash.common.secmet.locations import CompoundLocation, FeatureLocation
+    from antismash.common.secmet.test.helpers import DummyCDS, DummyRecord
+    length = args["length"]
+    protos = [tuple(p) for p in args["protos"]]
+    subs = [tuple(sub) for sub in args["subs"]]
+
+    class HashedSubRegion(SubRegion):  # pylint: disable=too-few-public-methods
+        """ a SubRegion whose hash is chosen (identity equality as ever) """
+        __slots__ = ["chosen_hash"]
+
+        def __hash__(self):
+            return self.chosen_hash
+
+    class HashedProtocluster(Protocluster):  # pylint: disable=too-few-public-methods
+        __slots__ = ["chosen_hash"]
+
+        def __hash__(self):
+            return self.chosen_hash
+
+    def mk(start, end):
+        if end < start:
+            return CompoundLocation([FeatureLocation(start, length, 1), FeatureLocation(0, end, 1)])
+        return FeatureLocation(start, end, 1)
+
+    def build(chosen_hash):
+        record = DummyRecord(seq="A" * length, circular=True)
+        record.id = "rec"
+        record.name = "rec"
+        record.record_index = 1
+        marks = sorted({p[2] for p in protos} | {p[3] for p in protos} | {s[0] for s in subs})
+        for i, pos in enumerate(marks):
+            if pos + 90 <= length:
+                record.add_cds_feature(DummyCDS(pos, pos + 90, locus_tag=f"g{i}"))
+        made_protos, made_subs = [], []
+        for i, (start, end, core_start, core_end, product) in enumerate(protos):
+            perturb(rng, keep)
+            cls = Protocluster if chosen_hash is None else HashedProtocluster
+            proto = cls(mk(core_start, core_end), mk(start, end), tool="t", product=product, cutoff=1,
+                        neighbourhood_range=0, detection_rule="r", product_category=product)
+            if chosen_hash is not None:
+                proto.chosen_hash = chosen_hash(i)
+            made_protos.append(proto)
+        for i, (start, end, tool, label) in enumerate(subs):
+            perturb(rng, keep)
+            if chosen_hash is None:
+                sub = SubRegion(mk(start, end), tool=tool, label=label)
+            else:
+                sub = HashedSubRegion(mk(start, end), tool=tool, label=label)
+                sub.chosen_hash = chosen_hash(len(protos) + i)
+            made_subs.append(sub)
+        for proto in made_protos:
+            record.add_protocluster(proto)
+        for sub in made_subs:
+            record.add_subregion(sub)
+        record.create_candidate_clusters()
+        record.create_regions()
+        regions = []
+        for region in record.get_regions():
+            regions.append({
+                "number": region.get_region_number(), "location": loc_text(region.location), "products": region.products,
+                "candidates": [(cand.get_candidate_cluster_number(), str(cand.kind),
+                                [(p.get_protocluster_number(), p.product) for p in cand.protoclusters])
+                               for cand in region.candidate_clusters],
+                "subregions": [(sub.get_subregion_number(), sub.tool, sub.label) for sub in region.subregions],
+                "unique_protoclusters": [(p.get_protocluster_number(), p.product) for p in region.get_unique_protoclusters()],
+                "qualifiers": sorted(region.to_biopython()[0].qualifiers.items())})
+        buf = io.StringIO()
+        SeqIO.write([record.to_biopython()], buf, "genbank")
+        return {"regions": regions, "areas_json": asjson.dumps(serialiser.gather_record_areas(record)),
+                "genbank": buf.getvalue()}
+    total = len(protos) + len(subs)
+    variants = [("layout 0", None), ("layout 1", None), ("layout 2", None),
+                ("ascending hashes", lambda i: i + 1), ("descending hashes", lambda i: total - i),
+                ("scrambled hashes", lambda i: ((i + 1) * 5) % 7 if total <= 6 else ((i + 1) * 7) % 11)]
+    dumps = {}
+    try:
+        first = None
+        for name, chosen in variants:
+            made = build(chosen)
+            if first is None:
+                first = made
+                dumps.update(made)
+            elif made != first:
+                differing = [key for key in made if made[key] != first[key]]
+                dumps["differs_within_process"] = {"variant": name, "differing": differing,
+                                                   "layout 0": {key: first[key] for key in differing[:1]},
+                                                   name: {key: made[key] for key in differing[:1]}}
+                break
+    except Exception as exc:  # pylint: disable=broad-except
+        dumps["error"] = type(exc).__name__ + ": " + str(exc)[:200]
+    return [], dumps
+
+
 CHILD = {1: child_refine, 2: child_refine, 3: child_pipeline, 4: child_formation, 5: child_unique, 6: child_strings,
-         7: child_notes, 8: child_annotate, 9: child_filter, 10: child_terpene, 11: child_terpene_e2e}
+         7: child_notes, 8: child_annotate, 9: child_filter, 10: child_terpene, 11: child_terpene_e2e,
+         12: child_crossing, 13: child_regions}
 
 
 def child_main(case_path, out_path, layout):
@@ -941,8 +1300,8 @@ def run_children(cases, seeds, jobs=6):
 
 def plan(tier):
     if tier == "quick":
-        return {1: 600, 2: 600, 3: 250, 4: 600, 5: 700, 6: 400, 7: 300, 8: 300, 9: 250, 10: 400, 11: 150}, [0, 1, 2, 3, 4, 5]
-    return {1: 6000, 2: 6000, 3: 1500, 4: 4500, 5: 4500, 6: 2000, 7: 1200, 8: 1200, 9: 1500, 10: 2500, 11: 600}, list(range(0, 18))
+        return {1: 600, 2: 600, 3: 250, 4: 600, 5: 700, 6: 400, 7: 300, 8: 300, 9: 250, 10: 400, 11: 150, 12: 260, 13: 120}, [0, 1, 2, 3, 4, 5]
+    return {1: 6000, 2: 6000, 3: 1500, 4: 4500, 5: 4500, 6: 2000, 7: 1200, 8: 1200, 9: 1500, 10: 2500, 11: 600, 12: 1500, 13: 500}, list(range(0, 18))
 
 
 # the fixed witnesses of the findings C17-K1..K3 (all three repaired in the code; regression corpus, run first, every time)
@@ -997,7 +1356,35 @@ WITNESS_TERPENE_SUBTYPES = {"fn": 11, "args": {"hits": [["g1", "T1TS_III-IV_a", 
                                                        ["g1", "T1TS_III-IV_b", 14, 330, 1e-50, 400.0]]}}
 WITNESS_TERPENE_REACTIONS = {"fn": 11, "args": {"hits": [["g1", "PT_FPPS_like", 10, 290, 1e-50, 400.0],
                                                         ["g1", "PT_noFPP_bact", 12, 260, 1e-50, 400.0]]}}
-WITNESSES = [WITNESS_UNIQUE, WITNESS_SINGLES, WITNESS_SAME_PRODUCT, WITNESS_UNIQUE_CORE, WITNESS_SINGLES_SAME_PRODUCT,
+# round 4: two or more origin-crossing genes satisfying one rule (a short one nested in a long one), a further gene after the
+# origin within the cutoff of the long one only, and a superior rule hitting that gene: the order of the cores of the
+# origin-crossing genes is observable (three namings of the genes: other string hashes, other set orders)
+def crossing_witness(names, tie=False):
+    xa, xb, c1, cn = names
+    if tie:
+        # same start and length, other exons (so another end): Feature.__lt__ does not separate the two
+        genes = [[xb, [[99001, 100000, 1], [0, 3000, 1]]],
+                 [xa, [[99001, 99100, 1], [99900, 100000, 1], [0, 3800, 1]]],
+                 [c1, [[4400, 4700, 1]]], [cn, [[50000, 50600, 1]]]]
+        rules = [[1, 1, "p1", None, []], [1, 1, "p0", None, [0]]]
+    else:
+        genes = [[xa, [[99700, 100000, 1], [0, 200, 1]]], [xb, [[99001, 100000, 1], [0, 3000, 1]]],
+                 [c1, [[4000, 4600, 1]]], [cn, [[50000, 50600, 1]]]]
+        rules = [[2, 1, "p1", None, []], [2, 1, "p0", None, [0]]]
+    return {"fn": 12, "args": {"length": 100000, "rules": rules, "genes": genes,
+                               "hits": {xa: ["p0"], xb: ["p0"], c1: ["p0", "p1"], cn: ["p0"]}}}
+
+
+NAMINGS = [("xa", "xb", "c1", "cn"), ("orf1", "orf2", "orf3", "orf10"), ("A", "B", "C", "D"), ("SCO1", "SCO2", "lt_0001", "z")]
+WITNESSES_CROSSING = [crossing_witness(names) for names in NAMINGS[:3]]
+# finding C17-K11 crossing_anchor_key_tie_set_order (four namings)
+WITNESSES_CROSSING_TIE = [crossing_witness(names, tie=True) for names in NAMINGS]
+# round 4: twin subregions in a section that is merged into the origin-crossing first section
+WITNESS_REGION_TWINS = {"fn": 13, "args": {"length": 100000,
+                                           "protos": [[97000, 3000, 98500, 1400, "T1PKS"], [45000, 55000, 50000, 50900, "terpene"]],
+                                           "subs": [[95000, 98000, "toolA", "islandA"], [95000, 98000, "toolB", "islandB"]]}}
+WITNESSES = WITNESSES_CROSSING + WITNESSES_CROSSING_TIE + [
+             WITNESS_REGION_TWINS, WITNESS_UNIQUE, WITNESS_SINGLES, WITNESS_SAME_PRODUCT, WITNESS_UNIQUE_CORE, WITNESS_SINGLES_SAME_PRODUCT,
              WITNESS_ANNOTATE, WITNESS_ANNOTATE_E2E, WITNESS_JS_CATEGORIES, WITNESS_FILTER_TIE, WITNESS_UNIQUE_CROSSING,
              WITNESS_TERPENE, WITNESS_TERPENE_PREDICTION, WITNESS_TERPENE_SUBTYPES, WITNESS_TERPENE_REACTIONS]
 
@@ -1085,9 +1472,20 @@ RULE = ("every case runs in child processes with PYTHONHASHSEED = 0..5 (quick) /
         "regions built directly from candidate clusters (1-6 protoclusters, identical coordinates, equal starts, "
         "origin-crossing regions with bridging protoclusters, same product and coordinates with other cores in both "
         "branches); sets of rule/profile-like strings (prefixes, case, digits, empty); notes and qualifier keys in a per-child "
-        "arrival order.  The witnesses of the ten repaired findings (C17-K1..K10) run first on every run.  Per case: all "
+        "arrival order; rule-based detection on circular records (30-100 kb) with 2-3 origin-crossing genes (nested, "
+        "overlapping, multi-exon, both strands, 20% with a pair tied on the key of Feature.__lt__) mostly satisfying the same "
+        "rule, an inferior rule with SUPERIORS (80%), extenders (40%), cutoffs 1-2 kb, genes at cutoff-300/-1/0/+1/+400 after "
+        "every reach and before every start, far genes, gene names drawn per case (other string hashes), compared with the "
+        "detection model at the enumeration each child observed through apply_cluster_rules, at record order and at reversed "
+        "record order, and continued end to end; regions of circular records with an origin-crossing first section "
+        "(protocluster or subregion, 30% with a twin), an unconnected area in the middle (80%), 0-3 subregions shortly before "
+        "the origin overlapping the first area (identical coordinates or 100 bp apart), twin protoclusters there and "
+        "subregions after the origin, each built under three allocation layouts and with ascending / descending / scrambled "
+        "forced hashes of subregions and protoclusters in every child (all dumps of a child must be identical).  The "
+        "witnesses of the round-4 seeded defects, of the known finding C17-K11 and of the ten repaired findings "
+        "(C17-K1..K10) run first on every run.  Per case: all "
         "children must agree (the property; a difference inside a finding class recorded with status known would be "
-        "counted and printed as KNOWN-FINDING - none is: any difference is a counterexample, labelled with its class), each child's output must equal the model at "
+        "counted and printed as KNOWN-FINDING - only crossing_anchor_key_tie_set_order is: any other difference is a counterexample, labelled with its class), each child's output must equal the model at "
         "the order that child observed, and fn 105 checks the documented order of get_unique_protoclusters.  non-trivial = the "
         "case contains a tie (two elements that the stage's sort key has to separate, or a duplicated element) or at least "
         "two elements in a hashed set; distinct by the flat encoding of the hash-seed-0 child")
@@ -1115,6 +1513,13 @@ def nontrivial(case, flat):
         return len(set(starts)) != len(starts)
     if fn == 11:
         return len(args["hits"]) >= 2
+    if fn == 12:
+        # two or more origin-crossing genes with a common profile
+        crossing = [set(args["hits"].get(name, ())) for name, parts in args["genes"] if len(parts) > 1]
+        return any(crossing[i] & crossing[j] for i in range(len(crossing)) for j in range(i))
+    if fn == 13:
+        spans = [tuple(p[:2]) for p in args["protos"]] + [tuple(sub[:2]) for sub in args["subs"]]
+        return len(set(spans)) != len(spans)
     return len(args["notes"]) >= 2 or len(args["keys"]) >= 2
 
 
@@ -1163,6 +1568,17 @@ def run(chk):
         first_flat = base["pairs"][0][0] if base["pairs"] else [PROP, fn]
         if fn == 11:
             first_flat = [PROP, 11] + [int(hashlib.sha1(json.dumps(case["args"]).encode()).hexdigest()[:12], 16)]
+        if fn == 13:
+            first_flat = [PROP, 13] + [int(hashlib.sha1(json.dumps(case["args"]).encode()).hexdigest()[:12], 16)]
+            for seed, res in zip(seeds, per_seed):
+                inside = res["extra"].get("differs_within_process")
+                if inside:
+                    chk.violation("counterexample", f"{FN_NAME[13]}: within ONE process (PYTHONHASHSEED {seed}) the same record "
+                                  f"gives different regions / GenBank / areas JSON under another memory layout or other hashes "
+                                  f"of the same areas ({inside.get('variant')})",
+                                  {"theorem_or_correspondence": "C17 same input, same output / " + FN_NAME[13], "function": 13,
+                                   "input": case, "hash_seed": seed, "difference": inside, "flat": first_flat})
+                    break
         if fn == 9:
             import c13
             first_flat = [PROP, 9] + c13.enc_fr(case["args"]["eqgs"], case["args"]["order"],
@@ -1243,6 +1659,8 @@ def run(chk):
                         reproduced.add(k)
                     continue
                 klass = [k for k in e2e if k not in known][0]
+            elif fn == 12 and (base["extra"].get("_class_crossing_key_tie") or res["extra"].get("_class_crossing_key_tie")):
+                klass = "crossing_anchor_key_tie_set_order"
             elif fn == 8 and nontrivial(case, None):
                 klass = "annotate_definition_domains_set_order"
             elif fn == 9 and filter_score_tie(case["args"]):
@@ -1342,6 +1760,38 @@ def run(chk):
     chk.extra["formation_model_cases_evaluated_at_other_enumerations"] = len(f4)
     chk.extra["formation_model_enumerations"] = [name for name, _ in variants]
     chk.extra["formation_model_order_dependent"] = order_dependent
+    # ---- (b3) the model of the detection at the REVERSED enumeration of every set of gene names (run function 17) against
+    # the model at the observed one (run function 16): C17_detection_perm proves them equal unless two genes of a rule tie
+    # on the key of Feature.__lt__ with different locations (class crossing_anchor_key_tie_set_order)
+    f16 = [i for i, flat in enumerate(flat_cases) if flat[1] == 16 and origin[i][1] == seeds[0]]
+
+    def payload16(flat):
+        pos = 3
+        for _ in range(flat[2]):
+            pos += 2 + flat[pos + 1]
+        return flat[pos:]
+    detection_order_dependent = 0
+    reversed_outs = common.run_driver([[PROP, 17] + payload16(flat_cases[i]) for i in f16])
+    record_order_outs = common.run_driver([[PROP, 18] + payload16(flat_cases[i]) for i in f16])
+    for i, out, out_id in zip(f16, reversed_outs, record_order_outs):
+        if out == model_outs[i] and out_id == model_outs[i]:
+            continue
+        if out == model_outs[i]:
+            out = out_id
+        idx = origin[i][0]
+        in_class = any(outs[s][idx]["extra"].get("_class_crossing_key_tie") for s in seeds)
+        if in_class and "crossing_anchor_key_tie_set_order" in known:
+            chk.count("detection_model_order_dependent_in_known_class_crossing_anchor_key_tie_set_order")
+            continue
+        detection_order_dependent += 1
+        if detection_order_dependent <= 2:
+            chk.violation("counterexample", "the detection model gives different protoclusters for two enumeration orders of the "
+                          "sets of gene names find_protoclusters iterates (observed vs record order / reversed record order)"
+                          + (" (class crossing_anchor_key_tie_set_order, not recorded as known)" if in_class else ""),
+                          {"theorem_or_correspondence": "C17_detection_perm / model at two enumerations", "function": 12,
+                           "flat": flat_cases[i], "input": cases[idx], "model_observed": model_outs[i], "model_other": out})
+    chk.extra["detection_model_cases_evaluated_at_record_order_and_reversed_enumeration"] = len(f16)
+    chk.extra["detection_model_order_dependent_outside_known_classes"] = detection_order_dependent
     # ---- (c) documented order of get_unique_protoclusters
     for i, verdict in zip(spec_origin, common.run_driver(spec_cases)):
         idx, seed = origin[i]
